@@ -8,7 +8,11 @@ package commentparser
 // wfIn: the lexer's representation invariant.
 //@ // lrOK: the per-line rune counters live in the array the caller knew or in
 //@ // one allocated since (two-state; used in postconditions and invariants)
-//@ spec wfIn(i *input) bool = i != nil && 0 <= i.offset && i.offset <= len(i.s) && len(i.pos.lineRune) >= 1
+//@ // nl(s, k): the number of newline bytes among the first k bytes of s
+//@ spec nl(s string, k int) int
+//@ lemma nl-def: forall s string :: nl(s, 0) == 0 && (forall k int :: 0 <= k && k < len(s) ==> nl(s, k+1) == nl(s, k) + ite(s[k] == 10, 1, 0))
+//@ // the current line is 1 + the number of newlines consumed so far
+//@ spec wfIn(i *input) bool = i != nil && 0 <= i.offset && i.offset <= len(i.s) && len(i.pos.lineRune) >= 1 && i.pos.line == 1 + nl(i.s, i.offset)
 //@
 //@ func (*input).eof
 //@   requires i != nil
@@ -25,6 +29,7 @@ package commentparser
 //@   props C18
 //@
 //@ func (*input).readRune
+//@   uses nl-def
 //@   requires wfIn(i)
 //@   ensures wfIn(i) && i.s == old(i.s) && i.lang == old(i.lang) && i.comments == old(i.comments)
 //@   ensures old(i.offset) < len(i.s) ==> old(i.offset) < i.offset && i.offset <= old(i.offset) + 4
@@ -38,7 +43,8 @@ package commentparser
 //@ // unreadRune is only ever used to push back ASCII runes (delimiter
 //@ // characters and the newline that ends a single-line comment)
 //@ func (*input).unreadRune
-//@   requires wfIn(i) && 0 <= c && c < 128 && i.offset >= 1
+//@   uses nl-def
+//@   requires wfIn(i) && 0 <= c && c < 128 && i.offset >= 1 && i.s[i.offset-1] == c
 //@   ensures wfIn(i) && i.s == old(i.s) && i.lang == old(i.lang) && i.comments == old(i.comments)
 //@   ensures i.offset == old(i.offset) - 1
 //@   ensures ref(i.pos.lineRune) == old(ref(i.pos.lineRune)) || fresh(i.pos.lineRune)
@@ -59,10 +65,14 @@ package commentparser
 //@   loop 1 invariant wfIn(i) && i.s == old(i.s) && i.lang == old(i.lang) && i.comments == old(i.comments) && isASCII(s) && (read == nil || fresh(read))
 //@   loop 1 invariant (ref(i.pos.lineRune) == old(ref(i.pos.lineRune)) || fresh(i.pos.lineRune)) && len(read) + len(s) == len(saved)
 //@   loop 1 invariant len(s) <= len(saved) && s == saved[len(saved)-len(s):] && (forall k int :: 0 <= k && k < len(read) ==> read[k] == saved[k])
+//@   loop 1 invariant forall k int :: 0 <= k && k < len(read) ==> i.s[old(i.offset)+k] == read[k]
 //@   loop 1 invariant i.offset == old(i.offset) + len(read) && (forall k int :: 0 <= k && k < len(read) ==> 0 < read[k] && read[k] < 128)
 //@   loop 2 invariant wfIn(i) && i.s == old(i.s) && i.lang == old(i.lang) && i.comments == old(i.comments) && -1 <= idx && idx < len(read)
 //@   loop 2 invariant (ref(i.pos.lineRune) == old(ref(i.pos.lineRune)) || fresh(i.pos.lineRune))
+//@   loop 2 invariant forall k int :: 0 <= k && k < len(read) ==> i.s[old(i.offset)+k] == read[k]
 //@   loop 2 invariant i.offset == old(i.offset) + idx + 1 && (forall k int :: 0 <= k && k < len(read) ==> 0 < read[k] && read[k] < 128)
+//@   loop 1 decreases len(s)
+//@   loop 2 decreases idx + 1
 //@   props C18
 //@
 //@ func (*input).singleLineComment
@@ -89,18 +99,58 @@ package commentparser
 //@ // that examined rune: no rune is passed over without having been examined
 //@ // as the possible start of a string or comment.
 //@ ghostvar topPeek int
+//@ lemma nl-mono: forall s string, a int, b int :: 0 <= a && a <= b && b <= len(s) ==> nl(s, a) <= nl(s, b)
+//@ // okCs: comments are non-nil, carry 1-based lines inside the text with
+//@ // StartLine <= EndLine, and appear in order of position
+//@ spec okC(c *Comment, s string) bool = c != nil && 1 <= c.StartLine && c.StartLine <= c.EndLine && c.EndLine <= 1 + nl(s, len(s))
+//@ spec okCs(cs Comments, s string, line int) bool = (forall k int :: 0 <= k && k < len(cs) ==> okC(cs[k], s)) && (forall k int :: 0 <= k && k + 1 < len(cs) ==> cs[k].EndLine <= cs[k+1].StartLine) && (len(cs) > 0 ==> cs[len(cs)-1].EndLine <= line)
 //@ func (*input).lex
-//@   requires wfIn(i)
-//@   ensures wfIn(i)
+//@   uses nl-mono nl-def
+//@   requires wfIn(i) && i.comments == nil
+//@   ensures wfIn(i) && okCs(i.comments, i.s, i.pos.line)
 //@   ghostset topPeek = i.offset after peekRune#1
 //@   callreq readRune#last requires i.offset == topPeek || i.offset == len(i.s)
-//@   loop 1 invariant wfIn(i)
-//@   loop 2 invariant wfIn(i)
-//@   loop 3 invariant wfIn(i)
-//@   loop 4 invariant wfIn(i)
+//@   loop 1 invariant wfIn(i) && i.s == old(i.s) && okCs(i.comments, i.s, i.pos.line) && (i.comments == nil || fresh(i.comments))
+//@   loop 2 invariant 1 <= startLine && startLine <= i.pos.line && topPeek < i.offset
+//@   loop 2 invariant wfIn(i) && i.s == old(i.s) && okCs(i.comments, i.s, i.pos.line) && (i.comments == nil || fresh(i.comments))
+//@   loop 3 invariant 1 <= startLine && startLine <= i.pos.line && topPeek < i.offset
+//@   loop 3 invariant wfIn(i) && i.s == old(i.s) && okCs(i.comments, i.s, i.pos.line) && (i.comments == nil || fresh(i.comments))
+//@   loop 4 invariant 1 <= startLine && startLine <= i.pos.line && topPeek < i.offset
+//@   loop 4 invariant wfIn(i) && i.s == old(i.s) && okCs(i.comments, i.s, i.pos.line) && (i.comments == nil || fresh(i.comments))
+//@   loop 1 decreases len(i.s) - i.offset
+//@   loop 2 decreases len(i.s) - i.offset
+//@   loop 3 decreases len(i.s) - i.offset
+//@   loop 4 decreases len(i.s) - i.offset
 //@   props C18
 //@
 //@ func Parse
+//@   uses nl-def
+//@   ensures forall k int :: 0 <= k && k < len(result) ==> result[k] != nil && 1 <= result[k].StartLine && result[k].StartLine <= result[k].EndLine
+//@   ensures forall k int :: 0 <= k && k + 1 < len(result) ==> result[k].EndLine <= result[k+1].StartLine
+//@   props C18
+//@
+//@ // ChunkIterator: sentN counts the comments delivered so far. Every chunk sent
+//@ // is non-empty and is exactly the next len(chunk) comments of c, so every
+//@ // comment is delivered exactly once and in order; when the goroutine ends
+//@ // all of them have been delivered.
+//@ ghostvar sentN int
+//@ func (Comments).ChunkIterator$1
+//@   requires forall k int :: 0 <= k && k < len(c) ==> c[k] != nil
+//@   ghostset sentN = 0 atentry
+//@   onsend requires len(value) > 0 && sentN + len(value) <= len(c) && (forall j int :: 0 <= j && j < len(value) ==> value[j] == c[sentN + j])
+//@   ghostset sentN = sentN + len(value) onsend
+//@   ensures sentN == len(c)
+//@   modifies nothing
+//@   loop 1 invariant 0 <= index && index <= len(c) && sentN == index && prevChunk != nil && (index < len(c) ==> prevChunk == c[index])
+//@   loop 2 invariant 0 <= index && index <= len(c) && sentN + len(chunk) == index && prevChunk != nil && (chunk == nil || fresh(chunk)) && (len(chunk) == 0 && index < len(c) ==> prevChunk == c[index])
+//@   loop 2 invariant forall j int :: 0 <= j && j < len(chunk) ==> chunk[j] == c[sentN + j]
+//@   loop 1 decreases len(c) - index
+//@   loop 2 decreases len(c) - index
+//@   props C18
+//@
+//@ func (Comments).ChunkIterator
+//@   requires forall k int :: 0 <= k && k < len(c) ==> c[k] != nil
+//@   modifies nothing
 //@   props C18
 //@
 //@ func (Comments).StartLine
